@@ -1254,6 +1254,29 @@ class Ops:
     def current_loop_order(self, env):
         return None
 
+    def loops_run_to_the_end(self, lids) -> bool:
+        """None of the loops `lids` can be left before its last element (no break of that loop, no return inside it): only then is a sum accumulated
+        over its iterations a sum over ALL the rows."""
+        for lid in lids:
+            st = getattr(self, "loop_stmts", {}).get(lid)
+            if st is None or not isinstance(st, (ast.For, ast.While)):
+                continue
+            todo = [(x, 0) for x in st.body]
+            while todo:
+                x, depth = todo.pop()
+                if isinstance(x, (ast.FunctionDef, ast.AsyncFunctionDef, ast.Lambda, ast.ClassDef)):
+                    continue
+                if isinstance(x, ast.Return) or (isinstance(x, ast.Break) and depth == 0):
+                    return False
+                inner = depth + 1 if isinstance(x, (ast.For, ast.While)) else depth
+                for f_, v_ in ast.iter_fields(x):
+                    kids = v_ if isinstance(v_, list) else [v_]
+                    for k_ in kids:
+                        if isinstance(k_, ast.AST):
+                            # the `else` block of an inner loop belongs to the enclosing level
+                            todo.append((k_, depth if f_ == "orelse" and isinstance(x, (ast.For, ast.While)) else inner))
+        return True
+
     def in_abstract_body_since(self, d) -> bool:
         """True when an abstract loop was entered after the dictionary was created (then a store may execute any number of times)."""
         return d.born >= 0 and self.interp.join_depth > d.born
@@ -1280,13 +1303,13 @@ class Ops:
                     over_loop_index=bool(trhs is not None and trhs.gen - tcur.gen), target_poly=repr(tcur.poly) if tcur.poly is not None else None, target_axes=list(tcur.axes))
             gen = new.gen
             p = new.p
-            if isinstance(op, ast.Add) and trhs is not None and trhs.gen - tcur.gen:
+            if isinstance(op, ast.Add) and trhs is not None and trhs.gen - tcur.gen and self.loops_run_to_the_end(trhs.gen - tcur.gen):
                 # symmetric accumulation over a generic row index
                 gen = tcur.gen
             new = new.but(alias=tcur.alias, gen=gen, p=p, dtype=tcur.dtype if tcur.kind == "tensor" and new.dtype in ("Mixed", "Cfg", "M") and tcur.dtype in ("M", "Cfg") else new.dtype)  # an in-place operation never changes the dtype of its target
         elif tcur is not None and isinstance(new, TV) and isinstance(op, ast.Add):
             trhs = tv_of(rhs)
-            if trhs is not None and trhs.gen - tcur.gen:
+            if trhs is not None and trhs.gen - tcur.gen and self.loops_run_to_the_end(trhs.gen - tcur.gen):
                 new = new.but(gen=tcur.gen)
         return new
 
